@@ -25,6 +25,7 @@ VERIF = os.path.dirname(os.path.dirname(os.path.abspath(__file__)))
 REPO = os.path.abspath(os.environ.get('VERIF_REPO', '/repo'))
 DEPS = os.path.join(VERIF, '.deps')
 
+SHRINK_BUDGET = {'quick': 25, 'thorough': 180}   # seconds of shrinking after the first failure of a shard
 CASE_CPU_LIMIT = 600  # CPU seconds for ONE case that normally takes milliseconds (hit => exit 2, inconclusive)
 
 
@@ -181,12 +182,18 @@ class Ctx:
         last = {}
         ctx = self
 
+        budget = SHRINK_BUDGET[self.tier]
+
         def test(value):
             ctx.hyp_examples += 1
+            if 'since' in last and time.time() - last['since'] > budget:
+                # shrinking budget used up: the verdict is settled, stop refining (the best case so far is kept)
+                raise last['v']
             try:
                 body(value)
             except Violation as v:
                 last['v'] = v
+                last.setdefault('since', time.time())
                 raise
             except Hang:
                 raise
@@ -195,6 +202,7 @@ class Ctx:
                     v = Violation('raises:' + type(e).__name__ + '@' + innermost(e), ctx.current_case(),
                                   ''.join(traceback.format_exception_only(type(e), e)).strip())
                     last['v'] = v
+                    last.setdefault('since', time.time())
                     raise v from e
                 raise
 
